@@ -222,3 +222,6 @@ func vWaitOthers() {}
 
 // vSettle blocks until every other goroutine is finished or blocked (timers excluded).
 func vSettle() {}
+
+// vNative reports whether the harness runs natively (replay / self-check) rather than under the engine.
+func vNative() bool { return true }
